@@ -5,15 +5,20 @@ import searchgen as sg
 
 NEED_RG = False
 MANIFEST = dict(
-    text="Coq theorem slice_slow_eq_ref: SliceByLine::run on the slow line path equals the grep reference model (events in "
-         "input order, context kinds, separators, 1-based line numbers, byte offsets, final byte count) for every input, "
-         "configuration and matcher, by a simulation invariant over the real bookkeeping fields. The fast path and the "
-         "other strategies are tied to the same reference by model=code=reference correspondence on generated cases "
-         "(fast-path theorem in progress). D10 fixed.",
-    note="trusted: Coq kernel, extraction, driver, harness; the reference (Spec/GrepSpec.v grep_ref) is an executable one-pass "
-         "specification; its declarative window characterisation is not yet proved",
-    technique="Coq simulation proof + extracted-model/implementation/reference correspondence",
-    design="§7 C03")
+    text="Coq theorems (Props/C03.v): SliceByLine::run equals the grep reference model grep_ref for every input, "
+         "configuration (A, B, invert, passthru, line numbers, stop-on-nonmatch) and matcher: slice_slow_eq_ref (slow line "
+         "path, simulation invariant over the real bookkeeping fields), slice_eq_ref (fast path, inverted or not, under the "
+         "contract find_spec of find_by_line_fast) and slice_eq_ref_from_candidate_contract (find_spec discharged from the "
+         "grep-matcher candidate-line contract). The reference is then read declaratively: every matching line is delivered "
+         "exactly once as a match, the A lines after and B lines before a match as context (credit_is_window), everything "
+         "under passthru, nothing else, in input order, with a break exactly at each gap, 1-based line numbers, absolute "
+         "offsets, and the input length at finish. Model = code = reference correspondence on generated cases ties the model to "
+         "core.rs/glue.rs/lines.rs on every run. D10 fixed.",
+    note="trusted: Coq kernel, extraction (ExtrOcamlBasic only), driver, harness; binary detection None in the "
+         "theorems (binary modes are C14's); the matcher is universally quantified, its candidate contract is a hypothesis "
+         "(discharged for regex matchers by C11's theorems and correspondence)",
+    technique="Coq simulation proof (model = declarative grep reference) + extracted-model/implementation/reference correspondence",
+    design="§7 C03, notes/C03.md")
 
 
 def features(case, events):
